@@ -24,6 +24,10 @@ ANCHORS = ["varintFORAnalyze", "varintFORReadMetadata", "varintPFORComputeThresh
            "varintAdaptiveReadMeta", "varintDictGetStats", "varintBitmapGetStats"]
 
 
+# metadata parameters that are read before being written, confirmed by reading: the FOR encoders re-use a caller-supplied analysis when
+# meta->count matches, varintPFORDecode takes the metadata read by varintPFORReadMeta.  Every other metadata parameter is a pure output.
+EXTREME_FIELDS = re.compile(r"^(min|max)(Value|Val)?$|^(minValue|maxValue|maxDelta)$")
+INOUT_CONFIRMED = {("varintFOREncode", "meta"), ("varintFORBatchEncode", "meta"), ("varintPFORDecode", "meta")}
 M8_ENCODERS = ["varintBP128Encode32", "varintBP128Encode64", "varintBP128DeltaEncode32", "varintBP128DeltaEncode64"]
 M6_PAIRS = [("varintRLEAnalyze", "varintRLEEncode"), ("varintPFORSize", "varintPFOREncode")]
 
@@ -127,6 +131,10 @@ def analyse(mod, run, label):
             # ---- M1 ----
             need = eng.layout.di_leaf(t)
             if inout:
+                run.check((fn.name, pname) in INOUT_CONFIRMED, "M9-output-metadata-not-read-first", {"fn": fn.name, "param": pname},
+                          Finding("M9-output-metadata-read-before-written", fn.name, "%s.%s" % (t, ",".join(field_names(eng.layout, "%struct." + t, s.rbw[k]))), "param:%s" % pname,
+                                  "%s reads %s of its metadata parameter '%s' before writing it: what the caller left there (e.g. the metadata of an earlier call) now influences the result; only %s are documented in/out metadata parameters" % (
+                                      fn.name, ", ".join(field_names(eng.layout, "%struct." + t, s.rbw[k])), pname, ", ".join(sorted("%s(%s)" % x for x in INOUT_CONFIRMED))), loc=rel(fn.file) + ":%s" % fn.line))
                 run.observe("%s: %s is an in/out parameter (reads %s before writing): M1 not applicable, the in-side is C15's" % (fn.name, pname, field_names(eng.layout, "%struct." + t, s.rbw[k])))
             else:
                 classes = s.mw_ret.get(k, {})
@@ -137,6 +145,40 @@ def analyse(mod, run, label):
                     run.check(not miss, "M1-fields-complete", {"fn": fn.name, "meta": t, "return_class": "non-constant" if rc is None else rc, "fields": len(eng.layout.di_fields(t))},
                               Finding("M1-field-not-written", fn.name, "%s.%s" % (t, ",".join(names)), "return:%s" % ("value" if rc is None else rc),
                                       "%s: on a success return (%s) the metadata field(s) %s of %s are not written on every path" % (fn.name, "computed value" if rc is None else "constant %s" % rc, ", ".join(names), t), loc=rel(fn.file) + ":%s" % fn.line))
+            # ---- M10: a stored minimum / maximum that is accumulated over the input array comes from a scan that cannot stop early ----
+            for i in fn.insts():
+                if i.op != "store": continue
+                fld = field_of(eng, fi, fn, i.ops[1], k, t)
+                if fld is None or "." in fld or not EXTREME_FIELDS.match(fld): continue
+                v = strip_casts(fn, i.ops[0])
+                if v["k"] != "inst": continue
+                loops = fn.loops()
+                def header_phi(o, d=0, seen=()):
+                    if o["k"] != "inst" or d > 4 or o["v"] in seen: return None
+                    x = fn.imap[o["v"]]
+                    if x.op == "phi":
+                        if x.block.id in loops and any(inc["b"] in loops[x.block.id] for inc in x["incoming"]): return x
+                        for inc in x["incoming"]:
+                            r = header_phi(inc["v"], d + 1, seen + (o["v"],))
+                            if r is not None: return r
+                    if x.op == "select":
+                        for y in x.ops[1:3]:
+                            r = header_phi(y, d + 1, seen + (o["v"],))
+                            if r is not None: return r
+                    return None
+                ph = header_phi(v)
+                if ph is None: continue                       # accumulated in a loop: a phi at that loop's header
+                body = loops[ph.block.id]
+                # does the loop load elements of a const array parameter?
+                scans = any(x.op == "load" and x.block.id in body and fi.ptr(x.ops[0])[0][0] == "arg" and fn.params[fi.ptr(x.ops[0])[0][1]]["pointee_const"] and not fi.ptr(x.ops[0])[1].is_const() for x in fn.insts())
+                if not scans: continue
+                exits = [(b, sx.id) for b in body for sx in fn.bmap[b].succs if sx.id not in body]
+                early = [e for e in exits if e[0] != ph.block.id]
+                run.m10 = getattr(run, "m10", 0) + 1
+                run.check(not early, "M10-extreme-value-scan-is-complete", {"fn": fn.name, "field": fld},
+                          Finding("M10-extreme-value-scan-stops-early", fn.name, "%s.%s" % (t, fld), "loop",
+                                  "%s accumulates %s over the input array in a loop that can be left before the last element (exit from block %s): the stored value is the extreme of a prefix only" % (
+                                      fn.name, fld, early[0][0] if early else ""), loc=loc(i)))
             # ---- stores to fields: M2, M3, M5 ----
             rets = [x for x in fn.rets() if x.ops]
             cparam = fn.param_index("count")
@@ -249,6 +291,7 @@ def run(tier):
         run.floor("metadata writer parameters (%s)" % cfg, n, 22)
         run.floor("functions with a checked size field (%s)" % cfg, len(set(cov["M2"])), 8)
         run.floor("functions with a checked count field (%s)" % cfg, len(set(cov["M3"])), 10)
+        run.floor("extreme-value scans (%s)" % cfg, getattr(run, "m10", 0), 2); run.m10 = 0
         # M6: a size reported by an analysis function is made of the same length terms as the cursor advances of the encoder it describes
         from .. import sizeterms as ST
         n6 = 0
